@@ -26,10 +26,10 @@ CHECKS.update({
 })
 
 CHECKS.update({
- "C01": ("two halves at the message.Manager.Deliver interface: (1) the real SMTP session loop delivers exactly the envelope accepted since the last MAIL, once, exactly when the end of DATA is acknowledged (ghost envelope from reply codes); (2) the real StoreManager.Deliver + policy + memory store give each eligible accepted recipient exactly one new message with sender/To/subject/size, nothing else changes",
-         "memory back-end only (file store needs the unbuilt FS model); recipients from a menu of 5 addresses (duplicates by case/+ext, discard-listed domain), <= 3 recipients, 3 naming modes; enmime header decoding is a model; session half bounded as C03", "4 C01"),
- "C02": ("byte-exact content: Deliver -> mem.AddMessage -> Source()/Size() equals Return-Path + Received + body for every body of <= n symbolic bytes (all 256 values); REST and web UI source handlers write exactly Source(); POP3 RETR/TOP re-stuffs and CRLF-normalises line by line so that un-stuffing gives the source back",
-         "bodies <= 3 (thorough 10) bytes, POP3 sources <= 5 (8) bytes ending in LF (the shape textproto.ReadDotBytes produces); bufio.Scanner, textproto and io.Copy are models; lines beyond 64 KiB, MiB bodies and the file store are outside the claim", "4 C02"),
+ "C01": ("two halves at the message.Manager.Deliver interface: (1) the real SMTP session loop delivers exactly the envelope accepted since the last MAIL, once, exactly when the end of DATA is acknowledged (ghost envelope from reply codes); (2) the real StoreManager.Deliver + policy + memory store or file store (file-system model) give each eligible accepted recipient exactly one new message with sender/To/subject/size, nothing else changes",
+         "both back-ends (file store over the file-system model, fewer instances); recipients from a menu of 5 addresses (duplicates by case/+ext, discard-listed domain), <= 3 recipients, 3 naming modes; enmime header decoding is a model; session half bounded as C03", "4 C01"),
+ "C02": ("byte-exact content: Deliver -> mem.AddMessage or file.AddMessage (file-system model) -> Source()/Size() equals Return-Path + Received + body for every body of <= n symbolic bytes (all 256 values); REST and web UI source handlers write exactly Source(); POP3 RETR/TOP re-stuffs and CRLF-normalises line by line so that un-stuffing gives the source back",
+         "bodies <= 3 (thorough 10) bytes, POP3 sources <= 5 (8) bytes ending in LF (the shape textproto.ReadDotBytes produces); bufio.Scanner, textproto and io.Copy are models; lines beyond 64 KiB and MiB bodies are outside the claim", "4 C02"),
  "C12": ("RetentionScanner.DoScan over the real memory store with symbolic message ages, period and a symbolic non-decreasing clock: expired => removed, young => retained in order, a delivery landing between the scanner's snapshot and its removals survives; Start/Join with cancellation at the n-th observation point: disabled for period <= 0, loop exits, no further mailbox visited",
          "memory back-end for the symbolic-age scan (<= 5 (6) messages in two mailboxes); file back-end: retention scan and stop-when-told visitor inside the C10 history harness; time.Time modelled as int64 nanoseconds; timers fire only when nothing else is ready (a closed Done wins over a pending timer)", "4 C12"),
  "C14": ("each REST v1 handler and web UI handler over the real StoreManager + memory store: status <=> existence for every name alias / id, payload and effects equal the store; the Go client's requests (real net/url + net/http request construction) match the server's route table incl. the body mark-seen requires; escaping round trip for all short ASCII names",
